@@ -214,6 +214,15 @@ func report(e *Engine, results []*funcResult, prop, tier, outDir string, verbose
 		}
 	}
 	extra := map[string]any{}
+	if tier == "thorough" {
+		a, u, d := 0, 0, 0
+		for _, r := range results {
+			if r != nil {
+				a, u, d = a+r.Agree, u+r.Unknown, d+r.Disagree
+			}
+		}
+		extra["solver_cross_check"] = map[string]int{"second_opinions_unsat": a, "second_opinions_unknown_or_timeout": u, "disagreements": d}
+	}
 	if isCheck && prop != "" && tier == "thorough" {
 		// (1) runtime cross-check: the replay harness must find no violating scenario on this tree when every obligation holds
 		var fams []map[string]any
